@@ -379,6 +379,7 @@ DEFAULT_PROFILE = dict(
     p_sibling_same_tag=0.0,
     p_alias_twin_annotations=0.0,
     p_container_of_root=0.0,
+    p_shared_type_name=0.0,
     route_alias_user_only=False,
 )
 
@@ -894,6 +895,17 @@ class Gen:
     def gen_struct(self, ns, parent=None, n_fields=None, force_name=None):
         r = self.rnd
         name = force_name or self.type_name()
+        twin_of = None
+        if not force_name and self.p.get('p_shared_type_name') and r.random() < self.p['p_shared_type_name']:
+            # type names are per namespace: a struct named like a struct of another namespace, and (below) a
+            # struct that holds both, so that one document contains values of the two
+            mine = {d.name for d in ns.defs}
+            others = [d for n2 in self.m.namespaces if n2 is not ns and n2.name in ns.imports for d in n2.defs
+                      if d.kind == 'struct' and not d.subtypes and d.name not in mine and not self.m.is_leaf(d)]
+            if others:
+                twin_of = r.choice(others)
+                name = twin_of.name
+                self.m.feature('struct_name_shared_across_namespaces')
         key = (ns.name, name)
         if parent is None and self.chance('p_parent'):
             cands = self.user_types(
@@ -915,6 +927,13 @@ class Gen:
         ns.defs.append(d)
         d.doc = self.doc(self.doc_refs_for(ns, d))
         self.m.feature('struct')
+        if twin_of is not None:
+            holder = StructDef(name=self.type_name(), ns=ns.name, doc=None, parent=None, fields=[],
+                               patch_fields=[], subtypes=None, examples=[])
+            for dd in (twin_of, d):
+                holder.fields.append(FieldDef(name=self.fresh_member_name((holder.ns, holder.name), []),
+                                              type=ref(dd.ns, dd.name, nullable=True), default=None, doc=None, anns=[]))
+            ns.defs.append(holder)
         return d
 
     def gen_field(self, ns, owner):
